@@ -12,6 +12,7 @@ use std::time::{Duration, Instant};
 
 static FLAGS: [AtomicU32; 16] = [const { AtomicU32::new(0) }; 16];
 static SINK: AtomicU64 = AtomicU64::new(0);
+static SLOTS: [AtomicU64; 8] = [const { AtomicU64::new(0) }; 8];
 static GATE_LEN: AtomicU32 = AtomicU32::new(0);
 static GATE_PARTIES: AtomicU32 = AtomicU32::new(0);
 static GATE_ARRIVED: AtomicU32 = AtomicU32::new(0);
@@ -72,14 +73,21 @@ enum Target {
     Inj(Injector<Item>),
 }
 impl Target {
-    fn push(&self, it: Item, f: impl FnOnce(&Item, &mut [Utf32String])) {
+    fn push(&self, it: Item, f: impl FnOnce(&Item, &mut [Utf32String])) -> u32 {
+        match self {
+            Target::Raw(v) => v.push(it, f),
+            Target::Inj(i) => i.push(it, f),
+        }
+    }
+    /// the item is known to be published (its push has returned); the index came through a relaxed channel
+    fn get_unchecked(&self, idx: u32) {
         match self {
             Target::Raw(v) => {
-                v.push(it, f);
+                if let Some(it) = v.get(idx) {
+                    consume(it);
+                }
             }
-            Target::Inj(i) => {
-                i.push(it, f);
-            }
+            Target::Inj(i) => consume(unsafe { i.get_unchecked(idx) }),
         }
     }
     fn extend(&self, its: Vec<Item>, f: impl Fn(&Item, &mut [Utf32String])) {
@@ -160,6 +168,24 @@ fn run_ops(ops: &[SOp], t: usize, target: &Target, mut nuc: Option<&mut Nucleo<I
                         wait_flag(w);
                     }
                 });
+            }
+            SOp::PushTell { slot } => {
+                let idx = target.push(item(new_id()), fill);
+                SLOTS[*slot as usize % 8].store(idx as u64 + 1, Ordering::Relaxed);
+            }
+            SOp::GetUncheckedTold { slot } => {
+                let t0 = Instant::now();
+                loop {
+                    let v = SLOTS[*slot as usize % 8].load(Ordering::Relaxed);
+                    if v != 0 {
+                        target.get_unchecked((v - 1) as u32);
+                        break;
+                    }
+                    if t0.elapsed() > Duration::from_secs(3) {
+                        break;
+                    }
+                    std::hint::spin_loop();
+                }
             }
             SOp::Get { idx } => target.get(*idx),
             SOp::GetRange { from, to } => {
